@@ -194,8 +194,8 @@ pub fn short_path(p: &str) -> String {
     if let Some(i) = p.find("/library/") {
         return format!("std{}", &p[i + "/library".len()..]);
     }
-    if let Some(i) = p.find("/msiverif/src/") {
-        return format!("harness/{}", &p[i + "/msiverif/src/".len()..]);
+    if let Some(i) = p.find("msiverif/src/") {
+        return format!("harness/{}", &p[i + "msiverif/src/".len()..]);
     }
     p.to_string()
 }
